@@ -1573,3 +1573,130 @@ func (g *Gen) itemGenericFamily() {
 		g.push("let", name, text)
 	}
 }
+
+// ---- stress schemas (C16): legal programs of a few hundred bytes to a few kilobytes whose cost may explode ----
+
+// stressProgram returns a small legal program built from one schema with a size parameter: chains and diamonds of
+// types, nested tuples, deep nesting of expressions, very wide declarations. Termination within the step budget
+// and without a runtime fatal error is demanded of them like of any other input.
+func stressProgram(r *common.Rng) (string, string) {
+	var sb strings.Builder
+	sb.WriteString("package main\n\nimport frt\nimport slice\n\n")
+	kind := r.Intn(14)
+	d := []int{3, 6, 10, 16, 24, 40}[r.Intn(6)]
+	name := ""
+	switch kind {
+	case 0: // record diamond: every level mentions the next one twice
+		name = "record-diamond"
+		fmt.Fprintf(&sb, "type D%d = {V%d: int}\n", d, d)
+		for i := d - 1; i >= 0; i-- {
+			fmt.Fprintf(&sb, "type D%d = {A%d: D%d; B%d: D%d}\n", i, i, i+1, i, i+1)
+		}
+		sb.WriteString("\nlet useD (x:D0) =\n  x.A0\n")
+	case 1: // nested tuples: the type doubles per line
+		name = "tuple-doubling"
+		d = map[int]int{3: 3, 6: 6, 10: 9, 16: 12, 24: 14, 40: 16}[d] // 24 levels are out of reach (known finding, replayed from the corpus)
+		sb.WriteString("let f () =\n  let x0 = 1\n")
+		for i := 1; i <= d; i++ {
+			fmt.Fprintf(&sb, "  let x%d = (x%d, x%d)\n", i, i-1, i-1)
+		}
+		fmt.Fprintf(&sb, "  x%d\n", d)
+	case 2: // chain of generic unions, each mentioning the next one twice
+		name = "generic-union-chain"
+		fmt.Fprintf(&sb, "type G%d<T> =\n  | L%d of T\n  | N%d\n\n", d, d, d)
+		for i := d - 1; i >= 0; i-- {
+			fmt.Fprintf(&sb, "type G%d<T> =\n  | A%d of G%d<T>\n  | B%d of G%d<T>\n\n", i, i, i+1, i, i+1)
+		}
+		sb.WriteString("let useG (x:G0<int>) =\n  x\n\nlet mkG () =\n  (N" + fmt.Sprint(d) + ", N" + fmt.Sprint(d) + ")\n")
+	case 3: // chain of unions (non generic), twice each
+		name = "union-chain"
+		fmt.Fprintf(&sb, "type H%d =\n  | HL%d of int\n\n", d, d)
+		for i := d - 1; i >= 0; i-- {
+			fmt.Fprintf(&sb, "type H%d =\n  | HA%d of H%d\n  | HB%d of H%d\n\n", i, i, i+1, i, i+1)
+		}
+		sb.WriteString("let useH (x:H0) =\n  x\n")
+	case 4: // deeply nested generic instantiation
+		name = "nested-instantiation"
+		sb.WriteString("type Bx<T> = {Vx: T; Nx: int}\n\n")
+		t := "int"
+		for i := 0; i < d; i++ {
+			t = "Bx<" + t + ">"
+		}
+		sb.WriteString("let useB (x: " + t + ") =\n  x.Nx\n")
+	case 5: // deeply nested lambdas
+		name = "nested-lambdas"
+		sb.WriteString("let f () =\n  ")
+		for i := 0; i < d; i++ {
+			fmt.Fprintf(&sb, "(fun a%d -> ", i)
+		}
+		sb.WriteString("1")
+		sb.WriteString(strings.Repeat(")", d))
+		sb.WriteString("\n")
+	case 6: // deeply nested if
+		name = "nested-if"
+		sb.WriteString("let f (a:int) =\n  ")
+		for i := 0; i < d; i++ {
+			fmt.Fprintf(&sb, "if a > %d then %d else ", i, i)
+		}
+		sb.WriteString("0\n")
+	case 7: // long pipeline
+		name = "long-pipeline"
+		sb.WriteString("let inc (a:int) = a + 1\n\nlet f () =\n  1")
+		for i := 0; i < d*8; i++ {
+			sb.WriteString(" |> inc")
+		}
+		sb.WriteString("\n")
+	case 8: // wide record and literal
+		name = "wide-record"
+		var fs, lit []string
+		for i := 0; i < d*6; i++ {
+			fs = append(fs, fmt.Sprintf("W%d: int", i))
+			lit = append(lit, fmt.Sprintf("W%d=%d", i, i))
+		}
+		sb.WriteString("type Wide = {" + strings.Join(fs, "; ") + "}\n\nlet f () =\n  {" + strings.Join(lit, "; ") + "}\n")
+	case 9: // wide union and match
+		name = "wide-union"
+		sb.WriteString("type WU =\n")
+		for i := 0; i < d*6; i++ {
+			fmt.Fprintf(&sb, "  | WC%d of int\n", i)
+		}
+		sb.WriteString("\nlet f (u:WU) =\n  match u with\n")
+		for i := 0; i < d*6; i++ {
+			fmt.Fprintf(&sb, "  | WC%d v -> v + %d\n", i, i)
+		}
+	case 10: // many parameters, all unannotated and unified
+		name = "many-unannotated-parameters"
+		sb.WriteString("let f")
+		for i := 0; i < d*2; i++ {
+			fmt.Fprintf(&sb, " p%d", i)
+		}
+		sb.WriteString(" =\n  [")
+		for i := 0; i < d*2; i++ {
+			if i > 0 {
+				sb.WriteString("; ")
+			}
+			fmt.Fprintf(&sb, "p%d", i)
+		}
+		sb.WriteString("]\n")
+	case 11: // nested slices of slices literal
+		name = "nested-slices"
+		sb.WriteString("let f () =\n  " + strings.Repeat("[", d) + "1" + strings.Repeat("]", d) + "\n")
+	case 12: // many definitions that call each other in a chain, all unannotated
+		name = "unannotated-call-chain"
+		d = map[int]int{3: 1, 6: 2, 10: 3, 16: 3, 24: 4, 40: 4}[d] // the type squares per level: 5 levels are out of reach (known finding, replayed from the corpus)
+		sb.WriteString("let c0 a b = (b, a)\n\n")
+		for i := 1; i <= d; i++ {
+			fmt.Fprintf(&sb, "let c%d a b =\n  c%d (c%d a b) (c%d b a)\n\n", i, i-1, i-1, i-1)
+		}
+	default: // nested match on tuples of unions
+		name = "nested-match"
+		sb.WriteString("type M =\n  | MA of int\n  | MB\n\nlet f (m:M) =\n")
+		indent := "  "
+		for i := 0; i < d && i < 30; i++ {
+			sb.WriteString(indent + "match m with\n" + indent + "| MB -> 0\n" + indent + "| MA v" + fmt.Sprint(i) + " ->\n")
+			indent += "  "
+		}
+		sb.WriteString(indent + "1\n")
+	}
+	return fmt.Sprintf("stress:%s:%d", name, d), sb.String()
+}
